@@ -5,6 +5,9 @@ From NIC Require Import Base.SMap AppProtect.Model AppProtect.Spec AppProtect.Pr
 Import ListNotations.
 Open Scope string_scope.
 Open Scope list_scope.
+
+Section V.
+Context {fx : bool}.
 Open Scope Z_scope.
 
 (* ------------------------------------------------------------------------------------------ *)
@@ -64,11 +67,11 @@ Proof.
 Qed.
 
 Lemma verify_set_invalid sx p e :
-  verify_policy_against_user_sigs sx (pol_set_invalid p e) = verify_policy_against_user_sigs sx p.
+  verify_policy_against_user_sigs fx sx (pol_set_invalid p e) = verify_policy_against_user_sigs fx sx p.
 Proof. reflexivity. Qed.
 
 Lemma verify_one_spec sx sx' k o :
-  fst (fst (verify_one sx' k (spec_pol_ex sx k o))) = spec_pol_ex sx' k o.
+  fst (fst (verify_one fx sx' k (spec_pol_ex fx sx k o))) = spec_pol_ex fx sx' k o.
 Proof.
   unfold spec_pol_ex. destruct (create_policy_ex o) as [pol [c|]] eqn:E; cbn [fst].
   - destruct (create_policy_some _ _ _ E) as [Hv He]. rewrite Hv.
@@ -78,23 +81,23 @@ Proof.
     + rewrite Hv. reflexivity.
   - pose proof (create_policy_none _ _ E) as Hp.
     assert (Hv : p_valid pol = true) by (rewrite Hp; reflexivity). rewrite Hv.
-    destruct (verify_policy_against_user_sigs sx pol) eqn:V; destruct (verify_policy_against_user_sigs sx' pol) eqn:V'.
+    destruct (verify_policy_against_user_sigs fx sx pol) eqn:V; destruct (verify_policy_against_user_sigs fx sx' pol) eqn:V'.
     + unfold verify_one. rewrite Hv. cbn [negb andb]. rewrite Hv, V'. reflexivity.
     + unfold verify_one. rewrite Hv. cbn [negb andb]. rewrite Hv, V'. reflexivity.
     + unfold verify_one. cbn [p_valid p_err pol_set_invalid negb andb err_eqb].
-      change (verify_policy_against_user_sigs sx' (pol_set_invalid pol EMissing))
-        with (verify_policy_against_user_sigs sx' pol). rewrite V'.
+      change (verify_policy_against_user_sigs fx sx' (pol_set_invalid pol EMissing))
+        with (verify_policy_against_user_sigs fx sx' pol). rewrite V'.
       cbn [p_valid pol_set_valid].
-      change (verify_policy_against_user_sigs sx' (pol_set_valid (pol_set_invalid pol EMissing)))
-        with (verify_policy_against_user_sigs sx' pol). rewrite V'.
+      change (verify_policy_against_user_sigs fx sx' (pol_set_valid (pol_set_invalid pol EMissing)))
+        with (verify_policy_against_user_sigs fx sx' pol). rewrite V'.
       cbn [negb fst]. rewrite Hp at 2. reflexivity.
     + unfold verify_one. cbn [p_valid p_err pol_set_invalid negb andb err_eqb].
-      change (verify_policy_against_user_sigs sx' (pol_set_invalid pol EMissing))
-        with (verify_policy_against_user_sigs sx' pol). rewrite V'. reflexivity.
+      change (verify_policy_against_user_sigs fx sx' (pol_set_invalid pol EMissing))
+        with (verify_policy_against_user_sigs fx sx' pol). rewrite V'. reflexivity.
 Qed.
 
 Lemma verify_policies_spec sx sx' (P : smap polobj) :
-  fst (fst (verify_policies sx' (mapk (spec_pol_ex sx) P))) = mapk (spec_pol_ex sx') P.
+  fst (fst (verify_policies fx sx' (mapk (spec_pol_ex fx sx) P))) = mapk (spec_pol_ex fx sx') P.
 Proof.
   unfold verify_policies, mapk. cbn [fst]. rewrite !map_map. apply map_ext. intros [k o]. cbn [fst snd].
   f_equal. apply verify_one_spec.
@@ -170,7 +173,7 @@ Definition mk_dl (_ : string) (o : dlogobj) : DosLogConfEx := {| dle_obj := o; d
 Definition mk_pr (_ : string) (o : probj) : DosPrEx := create_dos_pr_ex o.
 
 Lemma spec_dos_eq en ob :
-  dos (spec_state en ob) =
+  dos (spec_state fx en ob) =
   {| dpols := mapk mk_dp (ob_dpol ob); dlogs := mapk mk_dl (ob_dlog ob); dprs := mapk mk_pr (ob_dpr ob);
      d_enabled := en |}.
 Proof. reflexivity. Qed.
@@ -204,15 +207,13 @@ Qed.
 (* ------------------------------------------------------------------------------------------ *)
 (* one step *)
 
-Definition spec_waf (ob : objects) : wstate := waf (spec_state true ob).
-Definition spec_dos (en : bool) (ob : objects) : dstate := dos (spec_state en ob).
 
-Lemma spec_state_eq en ob : spec_state en ob = {| waf := spec_waf ob; dos := spec_dos en ob |}.
+Lemma spec_state_eq en ob : spec_state fx en ob = {| waf := spec_waf fx ob; dos := spec_dos en ob |}.
 Proof. reflexivity. Qed.
 
 Lemma spec_waf_eq ob :
-  spec_waf ob =
-  {| policies := mapk (spec_pol_ex (mapk (spec_sig_ex (ob_sig ob)) (ob_sig ob))) (ob_pol ob);
+  spec_waf fx ob =
+  {| policies := mapk (spec_pol_ex fx (mapk (spec_sig_ex (ob_sig ob)) (ob_sig ob))) (ob_pol ob);
      logconfs := mapk (fun _ o => fst (create_logconf_ex o)) (ob_log ob);
      usersigs := mapk (spec_sig_ex (ob_sig ob)) (ob_sig ob) |}.
 Proof. reflexivity. Qed.
@@ -224,25 +225,25 @@ Lemma spec_dos_eq2 en ob :
 Proof. reflexivity. Qed.
 
 Lemma step_policy ob k o :
-  fst (add_or_update_policy (spec_waf ob) k o) = spec_waf (apply_event ob (EvPolicy k o)).
+  fst (add_or_update_policy fx (spec_waf fx ob) k o) = spec_waf fx (apply_event ob (EvPolicy k o)).
 Proof.
   rewrite !spec_waf_eq. cbn [apply_event ob_pol ob_log ob_sig].
   set (sx := mapk (spec_sig_ex (ob_sig ob)) (ob_sig ob)).
   rewrite mapk_insert. unfold add_or_update_policy. cbn [usersigs policies].
   assert (Hs : forall pol c, create_policy_ex o = (pol, c) ->
-            spec_pol_ex sx k o = if p_valid pol then
-                                   if verify_policy_against_user_sigs sx pol then pol else pol_set_invalid pol EMissing
+            spec_pol_ex fx sx k o = if p_valid pol then
+                                   if verify_policy_against_user_sigs fx sx pol then pol else pol_set_invalid pol EMissing
                                  else pol).
   { intros pol c E. unfold spec_pol_ex. rewrite E. reflexivity. }
   destruct (create_policy_ex o) as [pol [c|]] eqn:E; cbn [fst]; rewrite (Hs _ _ eq_refl).
   - destruct (create_policy_some _ _ _ E) as [Hv _]. rewrite Hv. reflexivity.
   - pose proof (create_policy_none _ _ E) as Hp.
     assert (Hv : p_valid pol = true) by (rewrite Hp; reflexivity). rewrite Hv.
-    destruct (verify_policy_against_user_sigs sx pol); reflexivity.
+    destruct (verify_policy_against_user_sigs fx sx pol); reflexivity.
 Qed.
 
 Lemma step_del_policy ob k :
-  fst (delete_policy (spec_waf ob) k) = spec_waf (apply_event ob (EvDelPolicy k)).
+  fst (delete_policy (spec_waf fx ob) k) = spec_waf fx (apply_event ob (EvDelPolicy k)).
 Proof.
   rewrite !spec_waf_eq. cbn [apply_event ob_pol ob_log ob_sig].
   unfold delete_policy. cbn [policies]. rewrite lookup_mapk.
@@ -252,7 +253,7 @@ Proof.
 Qed.
 
 Lemma step_logconf ob k o :
-  fst (add_or_update_logconf (spec_waf ob) k o) = spec_waf (apply_event ob (EvLogConf k o)).
+  fst (add_or_update_logconf (spec_waf fx ob) k o) = spec_waf fx (apply_event ob (EvLogConf k o)).
 Proof.
   rewrite !spec_waf_eq. cbn [apply_event ob_pol ob_log ob_sig].
   unfold add_or_update_logconf. cbn [logconfs]. rewrite mapk_insert.
@@ -260,7 +261,7 @@ Proof.
 Qed.
 
 Lemma step_del_logconf ob k :
-  fst (delete_logconf (spec_waf ob) k) = spec_waf (apply_event ob (EvDelLogConf k)).
+  fst (delete_logconf (spec_waf fx ob) k) = spec_waf fx (apply_event ob (EvDelLogConf k)).
 Proof.
   rewrite !spec_waf_eq. cbn [apply_event ob_pol ob_log ob_sig].
   unfold delete_logconf. cbn [logconfs]. rewrite lookup_mapk.
@@ -270,20 +271,20 @@ Proof.
 Qed.
 
 Lemma build_change_state st sigs0 pr0 S' P sx :
-  policies st = mapk (spec_pol_ex sx) P ->
+  policies st = mapk (spec_pol_ex fx sx) P ->
   fst (fst (reconcile_user_sigs sigs0)) = mapk (spec_sig_ex S') S' ->
-  fst (build_user_sig_change st sigs0 pr0) =
-  {| policies := mapk (spec_pol_ex (mapk (spec_sig_ex S') S')) P; logconfs := logconfs st;
+  fst (build_user_sig_change fx st sigs0 pr0) =
+  {| policies := mapk (spec_pol_ex fx (mapk (spec_sig_ex S') S')) P; logconfs := logconfs st;
      usersigs := mapk (spec_sig_ex S') S' |}.
 Proof.
   intros HP HS. unfold build_user_sig_change.
   destruct (reconcile_user_sigs sigs0) as [[sigs1 rch] rpr]. cbn [fst] in HS. subst sigs1.
   rewrite HP. pose proof (verify_policies_spec sx (mapk (spec_sig_ex S') S') P) as HV.
-  destruct (verify_policies _ _) as [[pols1 vch] vpr]. cbn [fst] in HV. subst pols1. reflexivity.
+  destruct (verify_policies fx _ _) as [[pols1 vch] vpr]. cbn [fst] in HV. subst pols1. reflexivity.
 Qed.
 
 Lemma step_usersig ob k o : wf (ob_sig ob) -> sigs_distinct (insert k o (ob_sig ob)) ->
-  fst (add_or_update_usersig (spec_waf ob) k o) = spec_waf (apply_event ob (EvUserSig k o)).
+  fst (add_or_update_usersig fx (spec_waf fx ob) k o) = spec_waf fx (apply_event ob (EvUserSig k o)).
 Proof.
   intros Ws K1. rewrite !spec_waf_eq. cbn [apply_event ob_pol ob_log ob_sig].
   unfold add_or_update_usersig.
@@ -294,7 +295,7 @@ Proof.
 Qed.
 
 Lemma step_del_usersig ob k : wf (ob_sig ob) -> sigs_distinct (remove k (ob_sig ob)) ->
-  fst (delete_usersig (spec_waf ob) k) = spec_waf (apply_event ob (EvDelUserSig k)).
+  fst (delete_usersig fx (spec_waf fx ob) k) = spec_waf fx (apply_event ob (EvDelUserSig k)).
 Proof.
   intros Ws K1. rewrite !spec_waf_eq. cbn [apply_event ob_pol ob_log ob_sig].
   unfold delete_usersig. cbn [usersigs]. rewrite lookup_mapk.
@@ -405,7 +406,7 @@ End DosSteps.
 
 Theorem step_spec en ob ev :
   Inv ob -> sigs_distinct (ob_sig (apply_event ob ev)) ->
-  fst (step (spec_state en ob) ev) = spec_state en (apply_event ob ev).
+  fst (step fx (spec_state fx en ob) ev) = spec_state fx en (apply_event ob ev).
 Proof.
   intros [Wp Wl Ws Wdp Wdl Wpr HK] K1.
   rewrite (spec_state_eq en (apply_event ob ev)).
@@ -421,7 +422,7 @@ Proof.
   - f_equal. apply step_dos_logconf; assumption.
   - f_equal. apply step_dos_del_logconf; assumption.
   - pose proof (step_dos_pr en ob o) as E.
-    change (dos (spec_state en ob)) with (spec_dos en ob).
+    change (dos (spec_state fx en ob)) with (spec_dos en ob).
     destruct (add_or_update_dos_pr (spec_dos en ob) o) as [[d c] p]. cbn [fst] in *. subst d. reflexivity.
   - f_equal. apply step_dos_del_pr.
 Qed.
@@ -439,23 +440,25 @@ Fixpoint K1_from (ob : objects) (evs : list event) : Prop :=
 Definition K1_hist (evs : list event) : Prop := K1_from objs0 evs.
 
 Lemma run_from_spec en evs : forall ob, Inv ob -> K1_from ob evs ->
-  run_from (spec_state en ob) evs = spec_state en (objects_after ob evs).
+  run_from fx (spec_state fx en ob) evs = spec_state fx en (objects_after ob evs).
 Proof.
   induction evs as [|ev r IH]; intros ob HI HK; cbn; [reflexivity|].
   destruct HK as [K1 HK]. unfold run_from in *. cbn. rewrite (step_spec en ob ev HI K1).
   apply IH; [apply inv_apply; exact HI|exact HK].
 Qed.
 
-Lemma init_is_spec en : init en = spec_state en objs0.
+Lemma init_is_spec en : init en = spec_state fx en objs0.
 Proof. reflexivity. Qed.
 
 (* the invariant *)
-Theorem run_is_spec_state en evs : K1_hist evs -> run en evs = spec_state en (final_objects evs).
+Theorem run_is_spec_state en evs : K1_hist evs -> run fx en evs = spec_state fx en (final_objects evs).
 Proof.
   intros HK. unfold run. rewrite init_is_spec. apply run_from_spec; [apply inv0|exact HK].
 Qed.
 
 (* order independence: the whole state, hence every later answer and every later behaviour *)
 Theorem order_independent_state en evs1 evs2 :
-  K1_hist evs1 -> K1_hist evs2 -> final_objects evs1 = final_objects evs2 -> run en evs1 = run en evs2.
+  K1_hist evs1 -> K1_hist evs2 -> final_objects evs1 = final_objects evs2 -> run fx en evs1 = run fx en evs2.
 Proof. intros H1 H2 E. rewrite (run_is_spec_state en evs1 H1), (run_is_spec_state en evs2 H2), E. reflexivity. Qed.
+
+End V.
